@@ -4,11 +4,13 @@ import (
 	"encoding/json"
 	"flag"
 	"fmt"
+	wcmd "github.com/hnakamur/whispertool/cmd"
 	"math/rand/v2"
 	"os"
 	"path/filepath"
 	"runtime/debug"
 	"sort"
+	"strings"
 	"syscall"
 	"testing"
 	"testing/cryptotest"
@@ -150,12 +152,19 @@ func runOne(t *testing.T, prop, tier string, seed uint64, sim Sim, c interface{}
 	func() {
 		defer func() {
 			if r := recover(); r != nil {
+				if deadlockSeen && strings.Contains(fmt.Sprint(r), "blocked goroutines remain") {
+					// the run's scheduler reported a deadlock and judged it; the
+					// goroutines it left blocked for good are what the bubble
+					// complains about here
+					return
+				}
 				// a panic of the harness itself or the bubble's deadlock report
 				e.Viol = nil
 				fmt.Fprintf(os.Stderr, "HARNESS-PANIC prop=%s seed=%d: %v\n%s\n", prop, seed, r, debug.Stack())
 				os.Exit(2)
 			}
 		}()
+		deadlockSeen = false
 		synctest.Test(t, func(t *testing.T) {
 			e.T = t
 			// crypto/rand (the seed of generate's random points) is a seeded stream
@@ -169,6 +178,12 @@ func runOne(t *testing.T, prop, tier string, seed uint64, sim Sim, c interface{}
 			wt.VerifSpawn = nil
 			wt.VerifHeld = nil
 			wt.Now = time.Now
+			// runtime.NumCPU() as the tree under test sees it: a knob of the run
+			ncpu := []int{1, 2, 2, 3, 4, 8, 16, 64}[RunSeed(seed, "ncpu", 0)%8]
+			wt.VerifNumCPU = func() int { return ncpu }
+			// package-level channels of the tree under test belong to this bubble
+			wt.VerifReinit()
+			wcmd.VerifReinit()
 			defer Uninstall()
 			sim.Run(e, c)
 		})
@@ -286,6 +301,9 @@ func TestWsim(t *testing.T) {
 		if *flagBudget > 0 && time.Since(t0).Seconds() > *flagBudget {
 			break
 		}
+		if st.ResumeAt > 0 {
+			break
+		}
 		seed := RunSeed(*flagSeed, prop, idx)
 		r := newRng(seed)
 		sim := chooseSim(prop, r)
@@ -321,6 +339,11 @@ func TestWsim(t *testing.T) {
 			if len(b) < 6000 {
 				st.Samples = append(st.Samples, b)
 			}
+		}
+		if deadlockSeen && k+1 < *flagN {
+			// goroutines blocked for good may outlive this run's bubble and run
+			// their deferred calls later: no further run in this process
+			st.ResumeAt = k + 1
 		}
 		if e.Viol != nil {
 			if name := knownFinding(prop, sim.Name(), c, e.Viol); name != "" {
@@ -426,6 +449,8 @@ func raceMain(t *testing.T) {
 		synctest.Test(t, func(t *testing.T) {
 			Uninstall()
 			wt.Now = time.Now
+			wt.VerifReinit()
+			wcmd.VerifReinit()
 			rr.RunRace(e, c)
 		})
 		os.RemoveAll(dir)
